@@ -409,7 +409,7 @@ def encrypt(alg, enc, key, plaintext, header_extra=None, zip_=False, style=0, se
     return out
 
 
-def decrypt(value, key, sender_pub=None, pick=None):
+def decrypt(value, key, sender_pub=None, pick=None, strict_zip=False):
     """Reference decryption of a compact token (bytes) or JSON serialization (dict) for one recipient key.
     Returns plaintext or raises RefReject."""
     try:
@@ -447,8 +447,19 @@ def decrypt(value, key, sender_pub=None, pick=None):
                 cek = unwrap_for(merged["alg"], enc, ek, key, merged, sender_pub, tag)
                 m = content_decrypt(enc, cek, iv, aad, ct, tag)
                 if prot.get("zip") == "DEF":
-                    d = zlib.decompressobj(-15) if not m.startswith(b"\x78\x9c") else zlib.decompressobj()
-                    m = d.decompress(m)
+                    if strict_zip:
+                        # RFC 7516 section 4.1.3 / RFC 1951: a COMPLETE raw DEFLATE stream (final block present, nothing after
+                        # it, no zlib wrapper) - what a conforming recipient requires of a produced token
+                        d = zlib.decompressobj(-15)
+                        m2 = d.decompress(m)
+                        if not d.eof:
+                            raise RefReject("zip: not a complete raw DEFLATE stream (no final block)")
+                        if d.unused_data:
+                            raise RefReject("zip: octets after the final DEFLATE block")
+                        m = m2
+                    else:
+                        d = zlib.decompressobj(-15) if not m.startswith(b"\x78\x9c") else zlib.decompressobj()
+                        m = d.decompress(m)
                 return m
             except RefReject as e:
                 last = e
